@@ -157,6 +157,25 @@ pub fn spec_library() -> ParsingLibrary {
             .collect::<FxHashMap<_, _>>()
 }
 
+/// Verification hook: the specification (regular expression) and the shipped
+/// serialization of every parser of the library.
+#[cfg(feature = "verif-hooks")]
+pub fn verif_spec_library_data() -> Vec<(StdLibParser, Regex, &'static [u8])> {
+    spec_library_data()
+        .iter()
+        .map(|(name, spec, bytes)| (*name, spec(), *bytes))
+        .collect()
+}
+
+/// Verification hook: deserializes an automaton from (untrusted) bytes.
+/// Returns the automaton and the number of unread bytes.
+#[cfg(feature = "verif-hooks")]
+pub fn verif_deserialize_automaton(bytes: &[u8]) -> Result<(Automaton, usize), String> {
+    let mut buf = bytes;
+    let a = Automaton::deserialize(&mut buf)?;
+    Ok((a, buf.len()))
+}
+
 // Regex formalising the spec of `StdLIbParser::Jwt`.
 fn spec_jwt() -> Regex {
     // Content of a basic field (RFC 8259 JSON string), possibly marked if `marker`
